@@ -62,7 +62,7 @@ def vec_points(tier, elems=None, std=17, nonstd=True, ndebug=False, flavours=Non
 
 def swap2_points(tier, std=17):
     specs = [('vector', 0, 'u32', 'amc'), ('small', 4, 'u32', 'amc'), ('small', 2, 'u8', 'amc'), ('fcv', 4, 'u8', 'amc'),
-             ('vector', 0, 'u32', 'std')]
+             ('vector', 0, 'u32', 'std'), ('small', 3, 'u32', 'std'), ('vector', 0, 'i32', 'amc')]
     if tier == 'thorough':
         specs += [('small', 3, 'u64', 'std'), ('vector', 0, 'u16', 'amc'), ('fcv', 300, 'u16', 'amc'), ('small', 6, 'i32', 'amc')]
     elems = ['NTR', 'TRnc'] if tier == 'quick' else ['NTR', 'TRnc', 'TC', 'NTRtm', 'MoveOnly']
